@@ -772,7 +772,7 @@ def _bucket(case, v):
 
 
 LANES = [
-    Lane(name="big-transaction-crash", run_case=run_big, enumerate=enum_big, budget={"quick": 1, "thorough": 1},
+    Lane(name="scenarios", run_case=run_big, enumerate=enum_big, budget={"quick": 1, "thorough": 1},
          shards={"quick": 8, "thorough": 8}, nontrivial=lambda c, v: True,
          labels=lambda c, v: ["big" if c.get("big") else ("roundtrip:%d" % c["roundtrip"] if "roundtrip" in c else
                                       "busy-open" if c.get("busy_open") else "cli-import" if c.get("cli_import") else "interleaved")], exhaustive=True,
